@@ -476,6 +476,7 @@ def run_property(prop, tier, obligations, meta):
     """obligations: list of dicts (see harness/<prop>/spec.py).  Returns exit code."""
     seed = int(os.environ.get("VERIF_SEED", "0") or 0)
     run = Run(prop, tier, seed)
+    shutil.rmtree(os.path.join(VERIF, "replays", prop), ignore_errors=True)
     kfs = [k for k in load_known_findings() if k.get("property") == prop and k.get("status") == "open"]
     obs = []
     for ob in obligations:
